@@ -5,7 +5,7 @@
    adaptively and returns (action, reason).  Everything is for all `load`, all analyses, all
    histories - including histories that evict, switch modes and hit failing log sinks. *)
 From Coq Require Import Arith.
-From DippyV Require Import Base.Str Base.Verdict Model.Cache Proofs.CacheP.
+From DippyV Require Import Base.Str Base.Verdict Model.Cache Proofs.CacheP Proofs.LruP.
 
 Section Any.
   Variable value : Type.
@@ -52,6 +52,14 @@ Section Any.
   Theorem C18_lru : forall h,
     (length (lru value (after h init)) <= maxsize)%nat /\ NoDup (map fst (lru value (after h init))).
   Proof. exact (lru_bound value load input analysis explicit). Qed.
+
+  (* refinement to the specification of an LRU: after any history the cache holds exactly the module
+     names of the _load_handler calls made so far, distinct, in order of last use (most recent first),
+     cut at maxsize - whatever the analyses asked for and however adaptively *)
+  Theorem C18_lru_spec : forall h,
+    map fst (lru value (after h init)) =
+    firstn maxsize (dedup (rev (flat_map (calls value load input analysis) h))).
+  Proof. exact (lru_spec value load input analysis explicit). Qed.
 End Any.
 Print Assumptions C18_inv.
 Print Assumptions C18_pure.
@@ -59,6 +67,7 @@ Print Assumptions C18_pure_answer.
 Print Assumptions C18_hist.
 Print Assumptions C18_hist_answer.
 Print Assumptions C18_lru.
+Print Assumptions C18_lru_spec.
 
 (* the envelope (not the verdict) of a direct check_command call does depend on history: it reads
    the MODE left behind by the previous main().  Full statement "forall h q, snd (step (after h init) q)
@@ -75,4 +84,6 @@ Print Assumptions C18_envelope_refuted.
 Example C18_example_evict :
   let names := map (fun k => [N.of_nat k]) (seq 0 (S maxsize)) in
   fst (trace (list N) (fun m => m) [] (names ++ [[0%N]; [N.of_nat maxsize]])) = repeat false (S maxsize) ++ [false; true].
+Proof. vm_compute. reflexivity. Qed.
+Example C18_example_recent : dedup (rev [[1%N]; [2%N]; [1%N]; [3%N]; [2%N]]) = [[2%N]; [3%N]; [1%N]].
 Proof. vm_compute. reflexivity. Qed.
